@@ -210,7 +210,7 @@ def run(ctx):
     from vf.draw import draw_stratified
     from vf.runner import case_hash, load_regress
     cases = load_regress(ctx.prop, name) + gen_cfg.alternate_histories(
-        draw_stratified(strata(), 24 if ctx.quick else 250, ctx.seed),
+        draw_stratified(strata(), 32 if ctx.quick else 250, ctx.seed),
         ('edited', 'semantics', 'origin'))
     done = {}
 
